@@ -74,7 +74,7 @@ def run(ctx):
     evaluator = SequentialEvaluator()
     ctx.stat("mode:" + mode)
     if mode == "step":
-        desc = gen_step(H, max_depth=3, multi=multi)
+        desc = gen_step(H, max_depth=3, multi=multi, repeat=True)
         if H.draw(6) == 5:
             # EvaluateStep passes its input on: at the end of a sequence it receives exactly k individuals (as a generator)
             desc = ["sequence", [desc, ["evaluate"]]]
@@ -83,7 +83,7 @@ def run(ctx):
         form = H.pick(["list", "population", "iterator"])
         members = [Individual(rep.create_genotype(rnd), rep) for _ in range(n)]
         ctx.sample = {"step": desc, "population": n, "requested": k, "form": form, "multi_objective": multi}
-        step = build_step(desc)
+        step = build_step(desc, share=({} if H.draw(2) else None))  # one step object may sit at several positions of the pipeline
         try:
             out = apply_counted(ctx, step, desc, members, k, form, problem, evaluator, rep, rnd, multi)
         except Exception as e:
@@ -207,7 +207,7 @@ def run_gp(ctx, H, rnd, rep, problem, multi):
     from geneticengine.evaluation.tracker import MultiObjectiveProgressTracker, SingleObjectiveProgressTracker
 
     pop = 2 + H.draw(23)
-    desc = gen_step(H, max_depth=3, multi=multi) if H.draw(3) else None
+    desc = gen_step(H, max_depth=3, multi=multi, repeat=True) if H.draw(3) else None
     gens = 5 + H.draw(4)
     counts = {}
 
@@ -229,7 +229,7 @@ def run_gp(ctx, H, rnd, rep, problem, multi):
     ctx.sample = {"gp_population": pop, "step": desc, "generations": gens, "multi_objective": multi}
     try:
         gp = GeneticProgramming(problem=problem, budget=GenBudget(), representation=rep, random=rnd, tracker=tracker,
-                                population_size=pop, step=(build_step(desc) if desc else None))
+                                population_size=pop, step=(build_step(desc, share=({} if H.draw(2) else None)) if desc else None))
         gp.search()
     except Exception as e:
         ctx.stat("foreign_failure:" + type(e).__name__)
